@@ -62,16 +62,24 @@ UNITS = [
                  ("no-trailing-newline", "implies(_i > 0, not written(writer).endswith('\\n'))"),
              ])},
              ensures=[
+                 # the printed pair is the table entry of the node's first character ...
                  ("located-prefix",
                   "implies(error.node is not None, result.startswith('At line ' + "
-                  f"str(lc_line({STEXT}, self.atok.get_text_range(error.node)[0])) + ' and column ' + "
-                  f"str(lc_col({STEXT}, self.atok.get_text_range(error.node)[0]) + 1) + ': ' + error.message))"),
+                  "str(self.positions[self.atok.get_text_range(error.node)[0]][0]) + ' and column ' + "
+                  "str(self.positions[self.atok.get_text_range(error.node)[0]][1]) + ': ' + error.message))"),
+                 # ... and that entry is the 1-based (line, column) of that character
+                 ("printed-position-is-one-based",
+                  "implies(error.node is not None, self.positions[self.atok.get_text_range(error.node)[0]] == "
+                  f"(lc_line({STEXT}, self.atok.get_text_range(error.node)[0]), "
+                  f"lc_col({STEXT}, self.atok.get_text_range(error.node)[0]) + 1))"),
                  ("unlocated", "implies(error.node is None, result.startswith(error.message))"),
                  ("usable-as-report-entry", "entry_ok(result)"),
              ],
-             twins=[("zero-based", "implies(error.node is not None, result.startswith('At line ' + "
-                                   f"str(lc_line({STEXT}, self.atok.get_text_range(error.node)[0])) + ' and column ' + "
-                                   f"str(lc_col({STEXT}, self.atok.get_text_range(error.node)[0])) + ': '))")],
+             twins=[("zero-based", "implies(error.node is not None, self.positions[self.atok.get_text_range(error.node)[0]] == "
+                                   f"(lc_line({STEXT}, self.atok.get_text_range(error.node)[0]), "
+                                   f"lc_col({STEXT}, self.atok.get_text_range(error.node)[0])))"),
+                    ("column-printed-first", "implies(error.node is not None, result.startswith('At line ' + "
+                                             "str(self.positions[self.atok.get_text_range(error.node)[0]][1]) + ' and'))")],
              ),
 
     # write_error_report: headline + ':' then one '* '-bulleted entry per error, none dropped.
